@@ -482,7 +482,7 @@ func init() {
 		}
 	}
 	nSt := len(c09Steps)
-	fw.Register(addTok(tokFramesC09, &fw.Prop{
+	register(addTok(tokFramesC09, &fw.Prop{
 		ID: "C09",
 		Rule: "documents (all trees of depth <= 1, thorough also depth 2) x target paths of <= 3 steps over .a .b ['a'] and the indices 0 1 -1 2 5 0.9 -0.5 1048577 -10^19, rooted at $, at a variable aliasing the document and at a fresh variable, x 7 stores (=, +=, prefix and postfix ++/--, storing a container) and 9 reads (plain, non-mutating methods, operators); " +
 			"after the operation the program shows the result, $, the alias and the fresh variable, ENDFILE shows $ again and the JSON output is compared with the model's document; " +
